@@ -43,12 +43,19 @@ use tera_verif_harness::{catch, driver, quiet_panics, Env};
 mod evgen;
 
 const CHILD_FLAG: &str = "--child-pipe";
-/// the property the check script runs this binary for: `C06` (registering never panics / hangs) or
-/// `C07` (rendering never panics); taken from the `--out` file name `<pid>.cpipe.<tier>.result.json`
+/// the property the check script runs this binary for: `C06` (registering never panics / hangs),
+/// `C08` (literal text verbatim: the same end-to-end comparison, exact output text) or `C07`
+/// (rendering never panics); taken from the `--out` file name `<pid>.cpipe.<tier>.result.json`
 fn property() -> &'static str {
     let out = out_path();
     let base = std::path::Path::new(&out).file_name().map(|s| s.to_string_lossy().to_string()).unwrap_or_default();
-    if base.starts_with("C06.") { "C06" } else { "C07" }
+    if base.starts_with("C06.") {
+        "C06"
+    } else if base.starts_with("C08.") {
+        "C08"
+    } else {
+        "C07"
+    }
 }
 const DEFAULT_SUFFIXES: [&str; 3] = [".html", ".htm", ".xml"];
 
@@ -502,6 +509,7 @@ fn registry_sets(rng: &mut Rng, n: usize) -> Vec<Set> {
                     in_filter: rng.chance(1, 5),
                     super_twice: false,
                     call_before_super: rng.chance(1, 6),
+                    empty: false,
                 });
             }
             if rng.chance(1, 3) {
@@ -1473,7 +1481,7 @@ fn parent_main() {
     sets.extend(evgen_sets(&mut rng, env.budget(14000, 250000), env.budget(2, 5), &mut ev_hist));
     // the known finding F5b once (B: x{include A}; A extends B: x{super()}); it is a finding of C07
     // / C11 (the RENDER does not come back; registering is fine), so not when run for C06
-    if property() != "C06" {
+    if property() == "C07" {
     sets.push(Set {
         stream: "known.F5b".into(),
         templates: t(&[("B", "{% block x %}{% include \"A\" %}{% endblock %}"), ("A", "{% extends \"B\" %}{% block x %}{{ super() }}{% endblock %}")]),
@@ -1484,7 +1492,7 @@ fn parent_main() {
         runs: vec![Run { ctx: vec![], global: vec![], kind: "empty".into() }],
     });
     }
-    let n_base = sets.len() - if property() != "C06" { 1 } else { 0 };
+    let n_base = sets.len() - if property() == "C07" { 1 } else { 0 };
     let malformed = malformed_sets(&mut rng, &sets[..n_base], env.budget(12000, 200000));
     let wsmarks = wsmark_sets(&mut rng, &sets[..n_base], env.budget(5000, 80000));
     sets.extend(malformed);
@@ -1521,10 +1529,10 @@ fn parent_main() {
             report.oracle_checks += 1;
             report.oracle_failures += 1;
             let known_f5b = extends_include_cycle(&sets[*si]) && real_accepts(&sets[*si], *si);
-            if known_f5b && property() == "C06" {
+            if known_f5b && property() != "C07" {
                 // registering succeeded; the render of this shape is C07's / C11's known finding
                 report.oracle_failures -= 1;
-                report.count("known.F5b.shape_seen_while_checking_C06");
+                report.count("known.F5b.shape_seen_while_checking_another_property");
                 continue;
             }
             report.violation(
